@@ -699,7 +699,7 @@ impl G<'_> {
 
 pub fn gen(rng: &mut Rng, thorough: bool, out: &mut Vec<String>) {
     let mut g = G { r: rng, out };
-    let reps = if thorough { 6 } else { 1 };
+    let reps = if thorough { 6 } else { 2 };
     // sizes around every threshold that selects a strategy
     let small = [0usize, 1, 2, 3, 5, 8];
     let t16 = [15usize, 16, 17, 31, 32, 33, 48, 49];
